@@ -169,23 +169,23 @@ let run_eq line =
   let buf = Buffer.create 256 in Buffer.add_string buf "EQ";
   let parts = S.split_on_char '|' line in
   if !flavor = "static" then begin
-    let open HeapModel in
-    let st = ref { q = fifo_init (int_to_z 1); hp = heap_init (int_to_z 1) } in
-    let dump () = Buffer.add_string buf (Printf.sprintf "/%d,%d,%s" (z_to_int !st.hp.hwr) (z_to_int !st.hp.hcount) (hexz !st.hp.hdata)) in
+    let st = ref (Glue.hq_init (int_to_z 1) (int_to_z 1)) in
+    let dump () = let h = (!st).QStatic.hp in
+      Buffer.add_string buf (Printf.sprintf "/%d,%d,%s" (z_to_int h.HeapProof.hwr) (z_to_int h.HeapProof.hcount) (hexz h.HeapProof.hdata)) in
     L.iter (fun part ->
       (match S.split_on_char ' ' part with
-      | ["EQ"; qs; hs] -> st := { q = fifo_init (int_to_z (int_of_string qs)); hp = heap_init (int_to_z (int_of_string hs)) }
+      | ["EQ"; qs; hs] -> st := Glue.hq_init (int_to_z (int_of_string qs)) (int_to_z (int_of_string hs))
       | ["P"; code; info; len; _fail] ->
           let i = if info = "-" then None else Some (unhexz info @ [Z0]) in
-          let (_, s) = error_push !st (int_to_z (int_of_string code)) i (int_to_z (int_of_string len)) in
-          st := s; Buffer.add_string buf (Printf.sprintf " p%d" (z_to_int s.q.fcount)); dump ()
+          st := Glue.hq_push_ex !st (int_to_z (int_of_string code)) i (int_to_z (int_of_string len));
+          Buffer.add_string buf (Printf.sprintf " p%d" (z_to_int (Glue.hq_count !st))); dump ()
       | ["O"] ->
-          let ((code, txt), s) = error_pop_release !st in st := s;
+          let ((code, txt), s) = QStatic.error_pop_release !st in st := s;
           Buffer.add_string buf (Printf.sprintf " o%d" (z_to_int code));
           (match txt with None -> () | Some (p1, None) -> Buffer.add_string buf (":" ^ hexz p1) | Some (p1, Some p2) -> Buffer.add_string buf (":" ^ hexz p1 ^ hexz p2));
           dump ()
-      | ["C"] -> st := error_clear !st; Buffer.add_string buf (Printf.sprintf " c%d" (z_to_int !st.q.fcount)); dump ()
-      | ["N"] -> Buffer.add_string buf (Printf.sprintf " n%d" (z_to_int !st.q.fcount)); dump ()
+      | ["C"] -> st := QStatic.error_clear !st; Buffer.add_string buf (Printf.sprintf " c%d" (z_to_int (Glue.hq_count !st))); dump ()
+      | ["N"] -> Buffer.add_string buf (Printf.sprintf " n%d" (z_to_int (Glue.hq_count !st))); dump ()
       | ["S"] -> let (s, out) = Glue.hq_systerr !st in st := s; Buffer.add_string buf (" s" ^ hexz out); dump ()
       | _ -> raise Unsupported)) parts
   end else begin
